@@ -129,6 +129,28 @@ Section WalkFacts.
         * eapply IHn; [eapply IH; eauto|exact W].
   Qed.
 
+  (* the same, the callback knowing that it is handed an existing non-directory *)
+  Lemma walk_inv2 (Inv : X -> Prop) :
+    (forall pstr p x x' e, Inv x -> stat p (fs_of x) <> None -> is_dir (stat p (fs_of x)) = false ->
+                           on_file pstr p x = (x', e) -> Inv x') ->
+    forall fuel pstr p isdir x x' e,
+      Inv x -> stat p (fs_of x) <> None -> isdir = is_dir (stat p (fs_of x)) ->
+      walk fs_of on_file fuel pstr p isdir x = (x', e) -> Inv x'.
+  Proof.
+    intros HF. induction fuel as [|f IH]; intros pstr p isdir x x' e HI Ex Hd W; cbn [walk] in W.
+    - inversion W; subst. exact HI.
+    - destruct isdir; [|eapply HF; eauto].
+      destruct (readdir p (fs_of x)) as [names|er]; [|inversion W; subst; exact HI].
+      clear Ex Hd. revert x HI W. induction names as [|n r IHn]; intros x HI W; cbn [walk_loop] in W.
+      + inversion W; subst. exact HI.
+      + destruct (lookup (p ++ [n]) (fs_of x)) as [c|] eqn:L; [|inversion W; subst; exact HI].
+        assert (Ex : stat (p ++ [n]) (fs_of x) <> None) by (unfold stat; rewrite L; discriminate).
+        assert (Hd : node_is_dir c = is_dir (stat (p ++ [n]) (fs_of x))) by (symmetry; now apply stat_node_is_dir).
+        destruct (walk fs_of on_file f (join_str pstr n) (p ++ [n]) (node_is_dir c) x) as [x1 [e1|]] eqn:W1.
+        * inversion W; subst. eapply IH; eauto.
+        * eapply IHn; [eapply IH; eauto|exact W].
+  Qed.
+
   (* an error of the walk is the budget, an lstat/readdir errno, or an error of the callback *)
   Lemma walk_err_cases (P : walk_err -> Prop) :
     P WeFuel -> (forall e, P (WeErrno e)) ->
@@ -627,31 +649,50 @@ Section VerifyProofs.
 
   Lemma verify_file_le pstr p x x' e : verify_file st pstr p x = (x', e) -> vle x x'.
   Proof.
-    unfold verify_file, vle. destruct (chunk_file_id (st_unc st) pstr (last p [])); intros E; inversion E; subst; cbn.
+    unfold verify_file, vle. destruct (chunk_file_id (st_unc st) pstr (last p [])); [destruct (path_eqb p _)|];
+      intros E; inversion E; subst; cbn.
     - split; [reflexivity|]. intros y Y. apply in_or_app. now left.
+    - split; [reflexivity|apply incl_refl].
     - split; [reflexivity|apply incl_refl].
   Qed.
 
   Lemma verify_ids_spec fuel bstr s0 ids e :
     verify_ids fuel st bstr s0 = (ids, e) ->
     Forall wf_id ids /\
+    (forall i, In i ids -> exists en, stat (canon st i) s0 = Some en /\ is_dir (Some en) = false) /\
     (e = None -> is_dir (stat (st_base st) s0) = true ->
      forall t en i, stat (st_base st ++ t) s0 = Some en -> is_dir (Some en) = false ->
-       base_file_id (st_unc st) (last (st_base st ++ t) []) = Some i -> In i ids).
+       base_file_id (st_unc st) (last (st_base st ++ t) []) = Some i -> st_base st ++ t = canon st i -> In i ids).
   Proof.
     unfold verify_ids, walk_root. cbn [fst].
     destruct (lookup (st_base st) s0) as [c|] eqn:L.
-    2:{ intros E. inversion E; subst. split; [constructor|discriminate]. }
+    2:{ intros E. inversion E; subst. split; [constructor|split; [intros i []|discriminate]]. }
     destruct (walk (@fst node (list id)) (verify_file st) fuel bstr (st_base st) (node_is_dir c) (s0, []))
       as [[s1 ids1] e1] eqn:W. intros E. inversion E; subst. clear E.
-    split.
+    split; [|split].
     - refine (walk_inv (@fst node (list id)) (verify_file st) (fun x => Forall wf_id (snd x)) _ _ _ _ _ _ _ _ _ W); [|constructor].
       intros pstr p x x' e0 F. unfold verify_file.
-      destruct (chunk_file_id (st_unc st) pstr (last p [])) as [i|] eqn:C; intros E; inversion E; subst; [|exact F].
+      destruct (chunk_file_id (st_unc st) pstr (last p [])) as [i|] eqn:C; [destruct (path_eqb p _)|];
+        intros E; inversion E; subst; try exact F.
       cbn. apply Forall_app. split; [exact F|]. constructor; [|constructor].
       unfold chunk_file_id in C. destruct (has_suffix pstr (ext_of (st_unc st))); [|discriminate].
       eapply unhex_id_wf; eauto.
-    - intros -> D t en i S Nd B.
+    - (* every fed id was read off its own canonical, existing, non-directory path *)
+      pose (CInv := fun x : node * list id => fst x = s0 /\ forall i, In i (snd x) ->
+                     exists en, stat (canon st i) s0 = Some en /\ is_dir (Some en) = false).
+      assert (R : CInv (s1, ids)).
+      { refine (walk_inv2 (@fst node (list id)) (verify_file st) CInv _ fuel bstr (st_base st) (node_is_dir c) (s0, []) (s1, ids) e _ _ _ W); unfold CInv.
+        - intros pstr p [xs xl] x' e0 [Fx Ix] Ex Nd. cbn [fst snd] in Fx, Ix, Ex, Nd. subst xs. unfold verify_file.
+          destruct (chunk_file_id (st_unc st) pstr (last p [])) as [i|]; [destruct (path_eqb p (snd (name_from_id st i))) eqn:Q|];
+            intros E; inversion E; cbn [fst snd]; (split; [reflexivity|]); try exact Ix.
+          intros j Ij. apply in_app_iff in Ij. destruct Ij as [Ij|[<-|[]]]; [now apply Ix|].
+          apply path_eqb_eq in Q. unfold canon. rewrite <- Q.
+          destruct (stat p s0) as [en|]; [|congruence]. exists en. split; [reflexivity|exact Nd].
+        - split; [reflexivity|intros i []].
+        - cbn [fst]. unfold stat. rewrite L. discriminate.
+        - cbn [fst]. symmetry. now apply stat_node_is_dir. }
+      exact (proj2 R).
+    - intros -> D t en i S Nd B Q.
       assert (LE : vle (s0, []) (s1, ids)).
       { refine (walk_le (@fst node (list id)) (verify_file st) vle _ _ _ _ _ _ _ _ _ _ W).
         - intros x. split; [reflexivity|apply incl_refl].
@@ -659,28 +700,30 @@ Section VerifyProofs.
         - intros. eapply verify_file_le; eauto. }
       destruct LE as [Fs _]. cbn in Fs. subst s1.
       assert (G : (fun (x : node * list id) (p : path) =>
-                     forall i, base_file_id (st_unc st) (last p []) = Some i -> In i (snd x)) (s0, ids) (st_base st ++ t)).
+                     forall i, base_file_id (st_unc st) (last p []) = Some i -> p = canon st i -> In i (snd x)) (s0, ids) (st_base st ++ t)).
       { refine (walk_post (@fst node (list id)) (verify_file st) vle _ _ _ _ (fun _ => True) _
-                  (fun x p => forall i, base_file_id (st_unc st) (last p []) = Some i -> In i (snd x)) _ _
+                  (fun x p => forall i, base_file_id (st_unc st) (last p []) = Some i -> p = canon st i -> In i (snd x)) _ _
                   fuel bstr (st_base st) (node_is_dir c) (s0, []) (s0, ids) I _ _ W t en S Nd).
         - intros x. split; [reflexivity|apply incl_refl].
         - intros a b c0 [A1 A2] [B1 B2]. split; [congruence|eapply incl_tran; eauto].
         - intros x x' [A _]. rewrite A. apply mono_refl.
         - intros. eapply verify_file_le; eauto.
         - intros; exact I.
-        - intros x x' p [_ A] G j Bj. apply A. now apply G.
+        - intros x x' p [_ A] G j Bj Qj. apply A. now apply G.
         - intros dstr p x x' _ _ _. unfold verify_file. rewrite chunk_file_id_base.
-          intros E _ j Bj. rewrite Bj in E. inversion E; subst. cbn. apply in_or_app. right. now left.
+          intros E _ j Bj Qj. rewrite Bj in E. unfold canon in Qj. rewrite <- Qj, path_eqb_refl in E.
+          inversion E; subst. cbn. apply in_or_app. right. now left.
         - cbn [fst]. symmetry. now apply stat_node_is_dir.
         - cbn [fst]. rewrite <- (stat_node_is_dir _ _ _ L), D. discriminate. }
-      exact (G i B).
+      exact (G i B Q).
   Qed.
 
   (* verify_exact *)
   Lemma verify_exact fuel bstr repair s0 s' msgs :
     is_dir (stat (st_base st) s0) = true ->
     verify_raw H zdecomp fuel st bstr repair s0 = (s', msgs, None) ->
-    (forall i, In i (reported msgs) -> wf_id i /\ invalid i s0) /\
+    (forall i, In i (reported msgs) ->
+       wf_id i /\ invalid i s0 /\ exists en, stat (canon st i) s0 = Some en /\ is_dir (Some en) = false) /\
     (forall i en, wf_id i -> stat (canon st i) s0 = Some en -> is_dir (Some en) = false ->
                   invalid i s0 -> In i (reported msgs)) /\
     (repair = false -> s' = s0) /\
@@ -694,13 +737,14 @@ Section VerifyProofs.
     intros D. unfold verify_raw. destruct (verify_ids fuel st bstr s0) as [ids e] eqn:VI.
     destruct (Prune.verify_all H zdecomp st repair ids s0) as [s1 m1] eqn:VA.
     intros E. inversion E; subst. clear E.
-    destruct (verify_ids_spec _ _ _ _ _ VI) as [Wf Cov]. specialize (Cov eq_refl D).
+    destruct (verify_ids_spec _ _ _ _ _ VI) as (Wf & Canon & Cov). specialize (Cov eq_refl D).
     destruct (verify_all_spec _ _ _ _ _ Wf VA) as (A1 & A2 & A3 & A4).
     assert (Fed : forall i en, wf_id i -> stat (canon st i) s0 = Some en -> is_dir (Some en) = false -> In i ids).
     { intros i en Wi S Nd. unfold canon, name_from_id in S. cbn [snd] in S. rewrite <- app_assoc in S.
       eapply Cov; eauto.
-      rewrite app_assoc. change ((st_base st ++ [firstn 4 (hex_id i)]) ++ [hex_id i ++ ext_of (st_unc st)]) with (canon st i).
-      rewrite last_canon. now apply base_file_id_canonical. }
+      - rewrite app_assoc. change ((st_base st ++ [firstn 4 (hex_id i)]) ++ [hex_id i ++ ext_of (st_unc st)]) with (canon st i).
+        rewrite last_canon. now apply base_file_id_canonical.
+      - unfold canon, name_from_id. cbn [snd]. now rewrite <- app_assoc. }
     split; [|split; [|split; [|split; [|split]]]].
     6:{ intros K i m b Wi S Nr.
         assert (I : In i ids) by (eapply Fed; eauto).
@@ -713,13 +757,13 @@ Section VerifyProofs.
         - unfold new_chunk_from_storage in N. destruct (storage_data zdecomp (st_unc st) b); [|discriminate].
           destruct (N.eqb (H b0) i); discriminate.
         - exfalso. apply Nr. apply A1. split; [exact I|]. exists sum. exact G. }
-    - intros i I. apply A1 in I. destruct I as [I V]. split; [|exact V].
+    - intros i I. apply A1 in I. destruct I as [I V]. split; [|split; [exact V|now apply Canon]].
       rewrite Forall_forall in Wf. now apply Wf.
     - intros i en Wi S Nd V. apply A1. split; [|exact V]. eapply Fed; eauto.
     - exact A3.
     - intros q. destruct (A2 q) as [Eq|(Nn & Rp & i & Ii & Vi & Qi)]; [now left|].
       right. split; [exact Nn|]. split; [exact Rp|]. exists i. split; [|exact Qi]. apply A1. now split.
-    - intros Rp i en I S Nd. apply A1 in I. destruct I as [I V]. apply A4; auto. now exists en.
+    - intros Rp i en I S Nd. apply A1 in I. destruct I as [I V]. apply A4; eauto.
   Qed.
 End VerifyProofs.
 
@@ -970,7 +1014,7 @@ Proof.
   split.
   - destruct (A4 (canon (other_format st) j)) as [E|(_ & _ & i & Ii & Q)]; [exact E|exfalso].
     destruct (A1 i Ii) as [Wi _]. exact (canon_other_neq st i j Wi Wj Q).
-  - intros Dd N I. destruct (A1 j I) as [_ [sum G]].
+  - intros Dd N I. destruct (A1 j I) as [_ [[sum G] _]].
     assert (P : probe (snd (name_from_id st j)) s0 = Err ENOENT).
     { unfold canon, name_from_id in N, Dd |- *. cbn [fst snd] in N, Dd |- *. exact (probe_missing_in_dir _ _ _ Dd N). }
     unfold LocalStore.get_chunk, read_file in G. rewrite P in G. discriminate.
@@ -980,22 +1024,31 @@ Qed.
 Lemma verify_exact_any (H : bytes -> id) zdecomp st fuel bstr repair s0 s' msgs :
   is_dir (stat (st_base st) s0) = true ->
   verify H zdecomp fuel st bstr repair s0 = (s', msgs, None) ->
-  (forall i, In i (reported msgs) -> wf_id i /\ exists sum, get_chunk H zdecomp (verifying st) i s0 = GetInvalid sum) /\
+  (forall i, In i (reported msgs) ->
+     wf_id i /\ (exists sum, get_chunk H zdecomp (verifying st) i s0 = GetInvalid sum) /\
+     exists en, stat (snd (name_from_id st i)) s0 = Some en /\ is_dir (Some en) = false) /\
   (forall i en, wf_id i -> stat (snd (name_from_id st i)) s0 = Some en -> is_dir (Some en) = false ->
      (exists sum, get_chunk H zdecomp (verifying st) i s0 = GetInvalid sum) -> In i (reported msgs)) /\
   (repair = false -> s' = s0) /\
   (forall q, stat q s' = stat q s0 \/
      (stat q s' = None /\ repair = true /\ exists i, In i (reported msgs) /\ q = snd (name_from_id st i))) /\
-  (repair = true -> forall i en, In i (reported msgs) -> stat (snd (name_from_id st i)) s0 = Some en ->
-     is_dir (Some en) = false -> stat (snd (name_from_id st i)) s' = None) /\
+  (repair = true -> forall i, In i (reported msgs) -> stat (snd (name_from_id st i)) s' = None) /\
   (forall i m b, wf_id i -> stat (snd (name_from_id st i)) s0 = Some (EFile m b) ->
      ~ In i (reported msgs) -> exists d, storage_data zdecomp (st_unc st) b = Some d /\ H d = i).
 Proof.
   intros D V. unfold verify in V.
   destruct (verify_exact H zdecomp (verifying st) fuel bstr repair s0 s' msgs D V) as (A1 & A2 & A3 & A4 & A5 & A6).
-  split; [exact A1|]. split; [exact A2|]. split; [exact A3|]. split; [exact A4|]. split; [exact A5|].
-  exact (A6 eq_refl).
+  split; [exact A1|]. split; [exact A2|]. split; [exact A3|]. split; [exact A4|]. split; [|exact (A6 eq_refl)].
+  intros Rp i I. destruct (A1 i I) as (_ & _ & en & S & Nd). exact (A5 Rp i en I S Nd).
 Qed.
+
+(* the ids Verify hands to its workers are those of existing canonical chunk files, so the order in which
+   the workers take them is irrelevant (verify_all_perm applies to every run) *)
+Lemma verify_fed_ids_canonical (st : store) fuel bstr s0 ids e :
+  verify_ids fuel st bstr s0 = (ids, e) ->
+  Forall wf_id ids /\
+  forall i, In i ids -> exists en, stat (snd (name_from_id st i)) s0 = Some en /\ is_dir (Some en) = false.
+Proof. intros V. destruct (verify_ids_spec st _ _ _ _ _ V) as (W & C & _). split; [exact W|exact C]. Qed.
 
 Lemma verify_leaves_other_format_any (H : bytes -> id) zdecomp st fuel bstr repair s0 s' msgs j :
   is_dir (stat (st_base st) s0) = true ->
